@@ -28,7 +28,8 @@ for d in sorted(glob.glob(root + '/C*-[A-Z]')):
     }
     if id in det:
         rc, keys = det[id]
-        meta['detected_by'] = {'command': './check %s quick (VERIF_SEED=1), change applied with git -C /repo apply, undone with git -C /repo checkout -- .' % meta['property'],
+        checks = open(d + '/checks').read().split() if os.path.exists(d + '/checks') else [meta['property']]
+        meta['detected_by'] = {'command': ' ; '.join('./check %s quick' % p for p in checks) + ' (VERIF_SEED=1), change applied with git -C /repo apply, undone with git -C /repo checkout -- .',
                                'exit_code': rc, 'violation_keys': keys}
     json.dump(meta, open(d + '/meta.json', 'w'), indent=1)
     print(id, 'ok', len(needs))
